@@ -439,7 +439,9 @@ func (c *Ctx) checkLockOrder(rule string, pkgs []string, eng *lockEngine) {
 	if nBad == 0 {
 		c.ok(rule, strings.Join(pkgs, ","), token.NoPos, fmt.Sprintf("the lock-class order graph (%d edges) is acyclic and has no re-acquisition of a held class", len(uniq)))
 	}
-	c.floor(rule, len(uniq), 4)
+	if inPkgs[pkgPath("")] {
+		c.floor(rule, len(uniq), 4) // the root package nests its locks; the M3 packages do not nest any today
+	}
 }
 
 // e1SideConditions: (i) the purge body runs only when root.closed is already set; (ii) in
